@@ -49,6 +49,48 @@ func runC20(c *Ctx) {
 		Exempt: map[string]string{"OrderedDaemon.stopWorkers": "reads wgPerSameShutdownOrder after the stopped flag was set under the lock and the snapshot was taken: no registration can insert any more (enforced by reg/atomic-with-shutdown); clear() runs afterwards on the same goroutine"}}})
 	checkLockBalance(r, p, "lock/balance", []string{pkg}, nil, nil)
 	checkLockOrder(r, p, "lock/order", lockOrderOpts{Pkgs: []string{pkg}})
+	// (5b) the per-order wait groups outlive their workers: an entry is created at registration and the
+	// map is dropped as a whole by clear(). A single entry may only be deleted after waiting on it -
+	// a worker of that order that is still running counts on it (its Done would hit a missing or,
+	// after a re-registration, a different wait group, and stopWorkers would no longer wait for it).
+	{
+		nDel, bad := 0, ""
+		for _, fd := range p.AllFuncDecls(pkg) {
+			if fd.Body == nil || strings.HasSuffix(p.Fset.Position(fd.Pos()).Filename, "_test.go") {
+				continue
+			}
+			f := newFuncCFGPlain(p, info, fd.Body, funcKey(pkg, fd))
+			for _, c := range f.Calls(func(c *ast.CallExpr) bool {
+				return rawKey(c.Fun) == "delete" && len(c.Args) == 2 && fieldSel(info, c.Args[0], "wgPerSameShutdownOrder")
+			}) {
+				nDel++
+				cpt, found := f.PointOf(c)
+				if !found {
+					continue
+				}
+				k := exprKey(c.Args[1])
+				if _, reach := f.PathFromEntryAvoiding(cpt, func(n ast.Node) bool {
+					w, ok := n.(*ast.CallExpr)
+					if !ok {
+						return false
+					}
+					se, ok := ast.Unparen(w.Fun).(*ast.SelectorExpr)
+					if !ok || se.Sel.Name != "Wait" {
+						return false
+					}
+					ix, ok := ast.Unparen(se.X).(*ast.IndexExpr)
+					return ok && fieldSel(info, ix.X, "wgPerSameShutdownOrder") && exprKey(ix.Index) == k
+				}, nil); reach {
+					bad = fmt.Sprintf("%s: %s deletes the wait group of one shutdown order without having waited on it: a worker of that order that is still running (or finishes later) counts on it, and stopWorkers no longer waits for that worker", p.posStr(c.Pos()), funcKey(pkg, fd))
+				}
+			}
+		}
+		if bad != "" {
+			r.Fail("wg/entry-outlives-workers", pkg+".OrderedDaemon.wgPerSameShutdownOrder", "-", bad)
+		} else {
+			r.Pass("wg/entry-outlives-workers", pkg+".OrderedDaemon.wgPerSameShutdownOrder", "-", fmt.Sprintf("%d single-entry deletion(s), each after waiting on the entry; otherwise entries are created at registration and dropped as a whole", nDel))
+		}
+	}
 
 	// (1b) every other writer keeps the list sorted
 	checkOrderPreservingWrites(r, p, pkg, info)
